@@ -144,7 +144,7 @@ TetLine(ln, pp, qp) ==
               ELSE IF inC /\ ~colOK THEN "C15:CollapseRel"
               ELSE qmsg
       drift == \/ mod /\ Strip(m) # Strip(post)
-               \/ mod /\ ln.ret # -2 /\ m.ret # ln.ret
+               \/ mod /\ ~IsDelete(c) /\ ln.ret # -2 /\ m.ret # ln.ret      \* (delete_* log the returned iterator, the kernel trace spec owns that)
                \/ Has(ln, "q") /\ TetQueryDrift(post, ln.q, QC)
   IN [msg |-> msg, drift |-> IF drift THEN 1 ELSE 0,
       d |-> [col_in |-> IF inC THEN 1 ELSE 0, col_out |-> IF isCol /\ ~inC THEN 1 ELSE 0,
@@ -261,7 +261,7 @@ HexLine(ln, pp, qp) ==
               ELSE IF ~HexConventionAll(post) THEN "C16:HexConvention"
               ELSE qmsg
       drift == \/ mod /\ m.err = "" /\ Strip(m) # Strip(post)
-               \/ mod /\ ln.ret # -2 /\ m.ret # ln.ret
+               \/ mod /\ ~IsDelete(c) /\ ln.ret # -2 /\ m.ret # ln.ret      \* (delete_* log the returned iterator, the kernel trace spec owns that)
                \/ Has(ln, "q") /\ HexQueryDrift(post, ln.q, QC)
   IN [msg |-> msg, drift |-> IF drift THEN 1 ELSE 0,
       d |-> [col_in |-> 0, col_out |-> 0, col_cells_rebuilt |-> 0,
